@@ -54,8 +54,80 @@ def extract(ctx):
     return sliced, fired
 
 
+BE = 'src/tbbmalloc/backend.cpp'
+LOH = 'src/tbbmalloc/large_objects.h'
+LOC = 'src/tbbmalloc/large_objects.cpp'
+SU = 'src/tbbmalloc/shared_utils.h'
+
+
+def slice_between(rel, start_pat, end_pat):
+    """mechanical fragment: from the start of the first match of start_pat up to (not including) the first later match of end_pat"""
+    text = load(rel)
+    m = cxx2c.mask(text)
+    a = re.search(start_pat, m)
+    if not a:
+        raise ExtractionBreak('%s: fragment start %r not found' % (rel, start_pat))
+    b = re.compile(end_pat).search(m, a.end())
+    if not b:
+        raise ExtractionBreak('%s: fragment end %r not found' % (rel, end_pat))
+    return cxx2c.Slice(rel, a.start(), b.start(), cxx2c.strip_comments(text[a.start():b.start()]), cxx2c.line_of(text, a.start()))
+
+
+def extract_remap(ctx, sliced, fired):
+    """Backend::remap: the size arithmetic and its wrap-around guard (fragment between `const size_t userOffset` and `regionList.remove(oldRegion)`), with the real alignToBin / alignUp / log2"""
+    rw = Rewriter('remap')
+    l2, f2 = common.log2_c(ctx, sliced)
+    out = [l2]
+    s = slice_block(SU, r'static inline T alignUp\s*\(T arg, uintptr_t alignment\)')
+    sliced.append('%s:%d alignUp' % (SU, s.line))
+    t = rw.sub(s.text, r'static inline T alignUp\s*\(T arg, uintptr_t alignment\)', 'static inline size_t alignUp(size_t arg, uintptr_t alignment)', 1, 1, name='bind-template(T:=size_t)')
+    t = rw.sub(t, r'\bT\b', 'size_t', 0, name='bind-template(T:=size_t)')
+    t = rw.fcasts(t, ['size_t'], 1)
+    out.append(t)
+    s = slice_block('src/tbbmalloc/Customize.h', r'inline intptr_t BitScanRev\(uintptr_t x\)')
+    sliced.append('%s:%d BitScanRev' % (s.rel, s.line))
+    t = rw.sub(s.text, r'inline intptr_t BitScanRev\(uintptr_t x\)', 'static intptr_t BitScanRev(uintptr_t x)', 1, 1, name='sig')
+    t = rw.sub(t, r'tbb::detail::log2\(', 'tbb_log2(', 1, 1, name='ns-strip')
+    t = rw.casts(t, 1)
+    out.append(t)
+    s = slice_block(LOH, r'static size_t alignToBin\(size_t size\)', within=r'struct LargeBinStructureProps \{')
+    sliced.append('%s:%d LargeBinStructureProps::alignToBin' % (LOH, s.line))
+    out.append(rw.sub(s.text, r'static size_t alignToBin\(size_t size\)', 'static size_t LargeCacheType_alignToBin(size_t size)', 1, 1, name='sig'))
+    s = slice_block(LOH, r'static size_t alignToBin\(size_t size\)', within=r'struct HugeBinStructureProps \{')
+    sliced.append('%s:%d HugeBinStructureProps::alignToBin' % (LOH, s.line))
+    t = rw.sub(s.text, r'static size_t alignToBin\(size_t size\)', 'static size_t HugeCacheType_alignToBin(size_t size)', 1, 1, name='sig')
+    t, n = re.subn(r'MALLOC_ASSERT\((.*), "([^"]*)"\);', lambda m: 'VERIF_ASSERT(%s, "%s");' % (m.group(1), m.group(2).replace(',', ' ')), t)   # messages contain commas
+    rw.fired['assert'] = rw.fired.get('assert', 0) + n
+    out.append(t)
+    s = slice_block(LOC, r'size_t LargeObjectCache::alignToBin\(size_t size\)')
+    sliced.append('%s:%d LargeObjectCache::alignToBin' % (LOC, s.line))
+    t = rw.sub(s.text, r'size_t LargeObjectCache::alignToBin\(size_t size\)', 'static size_t LargeObjectCache_alignToBin(size_t size)', 1, 1, name='sig')
+    t = rw.sub(t, r'(Large|Huge)CacheType::alignToBin\(', r'\1CacheType_alignToBin(', 2, 2, name='ns-strip')
+    out.append(t)
+    consts = {}
+    for name, pat in (('CacheStep', r'static const size_t\s+CacheStep = ([^;]*);'), ('maxLargeSize', r'maxLargeSize = ([^,;]*)[,;]'), ('StepFactor', r'static const int StepFactor\s*= (\d+);')):
+        m = re.search(pat, load(LOH))
+        if not m:
+            raise ExtractionBreak('%s: constant %s not found' % (LOH, name))
+        consts[name] = m.group(1).strip()
+    pre = '#define CacheStep ((size_t)(%s))\n#define maxLargeSize ((size_t)(%s))\n#define StepFactor (%s)\n#define StepFactorExp 3\n' % (consts['CacheStep'], consts['maxLargeSize'], consts['StepFactor'])
+    if consts['StepFactor'] != '8':
+        raise ExtractionBreak('StepFactor changed: StepFactorExp = Log2<StepFactor> must be re-derived')
+    s = slice_between(BE, r'const size_t userOffset = ', r'regionList\.remove\(oldRegion\);')
+    sliced.append('%s:%d Backend::remap (size arithmetic and wrap-around guard)' % (BE, s.line))
+    t = rw.sub(s.text, r'LargeObjectCache::alignToBin\(', 'LargeObjectCache_alignToBin(', 1, 1, name='ns-strip')
+    t = rw.sub(t, r'sizeof\(MemRegion\)', 'SIZEOF_MemRegion', 1, 1, name='sizeof -> symbolic constant')
+    t = rw.sub(t, r'sizeof\(LastFreeBlock\)', 'SIZEOF_LastFreeBlock', 1, 1, name='sizeof -> symbolic constant')
+    t = rw.sub(t, r'extMemPool->granularity', 'granularity', 1, 1, name='field path')
+    t = rw.std(t)
+    common.write(ctx, 'remap.inc', pre + '\n'.join(out) + '\n')
+    common.write(ctx, 'remap_frag.inc', t + '\n')
+    fired['remap'] = dict(rw.fired, **f2)
+
+
 def build(ctx):
     sliced, fired = extract(ctx)
+    extract_remap(ctx, sliced, fired)
     C = os.path.join(HERE, 'c18.c')
     jobs = []
     for w in (8, 16):
@@ -68,6 +140,7 @@ def build(ctx):
         Job('posix_memalign.args', C, 'h_memalign', route='LF', defines=['API'], target='scalable_posix_memalign + isPowerOfTwoAtLeast', source=FE),
         Job('aligned_malloc.args', C, 'h_aligned_malloc', route='LF', defines=['API'], target='scalable_aligned_malloc + isPowerOfTwo', source=FE),
         Job('aligned_realloc.args', C, 'h_aligned_realloc', route='LF', defines=['API'], target='scalable_aligned_realloc', source=FE),
+        Job('remap.size_guard', C, 'h_remap', route='LF', defines=['REMAP'], target='Backend::remap: size arithmetic + wrap-around guard (with the real LargeObjectCache::alignToBin, alignUp, log2)', source=BE, timeout=600),
         Job('realloc.args', C, 'h_realloc', route='LF', defines=['API'], target='scalable_realloc', source=FE),
     ]
     return {
@@ -84,7 +157,8 @@ def build(ctx):
 def replay(ctx, jobname, failure):
     exe = native.build([os.path.join(HERE, 'c18_replay.cpp')], os.path.join(ctx.work, 'c18_replay'),
                        flags=['-fno-access-control', '-I', os.path.join(ctx.repo, 'src/tbbmalloc'), '-I', os.path.join(ctx.repo, 'src'), '-D__TBBMALLOC_BUILD=1', '-ldl'])
-    rc, out = native.run([exe, jobname], timeout=120)
+    extra = [str(failure.get('inputs', {}).get('IN_newSize'))] if jobname == 'remap.size_guard' and failure.get('inputs', {}).get('IN_newSize') else []
+    rc, out = native.run([exe, jobname] + extra, timeout=120)
     rep = {'cmd': exe + ' ' + jobname, 'rc': rc, 'output': out[-1500:], 'reproduced': False, 'detail': 'native search found no failing input'}
     m = re.search(r'REPRODUCED (.*)', out)
     if m:
